@@ -32,7 +32,7 @@ CFG = {
                   "LinkedHashMap / slice::sort_by_key as sorted and insertion-ordered association lists; extraction (ExtrOcamlBasic) and the "
                   "OCaml/Rust glue. No axioms.",
     "theorems": ["C10_spend", "C10_mint", "C10_cert", "C10_reward", "C10_vote", "C10_propose", "C10_unique", "C10_only_script_items",
-                 "C10_full", "C10_order_irrelevant", "C10_code_orders_are_ledger_orders", "C10_judge_sound", "C10_judge_complete", "C10_judge_known_narrow", "C10_known_classes_on_calls",
+                 "C10_full", "C10_order_irrelevant", "C10_code_orders_are_ledger_orders", "C10_utxo_entry_points", "C10_judge_sound", "C10_judge_complete", "C10_judge_known_narrow", "C10_known_classes_on_calls",
                  "C10_unique_refuted_collateral", "C10_only_script_refuted_proposal",
                  "C10_reward_legacy_refuted", "C10_vote_legacy_refuted", "C10_stale_legacy_refuted"],
     "allowed_axioms": [],
